@@ -110,8 +110,10 @@ def spectrum(draw, kinds=SPEC_KINDS, maxbumps=4):
     """Spec of one (nf, nd) spectrum in *index space* (grid independent)."""
     kind = draw(st.sampled_from(kinds))
     s = dict(kind=kind, rs=draw(st.integers(0, 2**31 - 1)), amp=draw(st.sampled_from([1e-6, 1e-3, 0.05, 1.0, 30.0])))
-    if kind == "multi":
-        nb = draw(st.integers(2, 6))
+    if kind in ("multi", "multinoisy"):
+        if kind == "multinoisy":
+            s["sigma"] = draw(st.sampled_from([0.1, 0.3, 0.8]))
+        nb = draw(st.integers(1 if kind == "multinoisy" else 2, 6))
         s["bumps"] = [
             dict(pf=draw(st.integers(0, 19)) / 19.0, pd=draw(st.integers(0, 23)) / 24.0, wf=draw(st.sampled_from([0.04, 0.07, 0.12])),
                  wd=draw(st.sampled_from([0.05, 0.1, 0.2])), a=draw(st.sampled_from([0.1, 0.3, 0.5, 1.0, 1.0])))
@@ -151,7 +153,7 @@ def build_spectrum(s, nf, nd, dtype=np.float64):
     di = (np.arange(nd) + 0.5) / nd
     kind = s["kind"]
     rs = np.random.RandomState(s["rs"] % (2**31 - 1))
-    if kind in ("bumps", "noisy", "plateau", "wide", "multi"):
+    if kind in ("bumps", "noisy", "plateau", "wide", "multi", "multinoisy"):
         e = np.zeros((nf, nd))
         for b in s["bumps"]:
             gf = np.exp(-0.5 * ((fi - b["pf"]) / b["wf"]) ** 2)
@@ -159,7 +161,9 @@ def build_spectrum(s, nf, nd, dtype=np.float64):
             dth = np.minimum(dth, 1 - dth)
             gd = np.cos(np.pi * dth) ** (2.0 / max(b["wd"], 1e-3) ** 2 * 0.25)
             e += b["a"] * np.outer(gf, gd)
-        if kind == "noisy":
+        if kind in ("noisy", "multinoisy"):
+            if kind == "multinoisy":
+                e = e + 1e-3 * e.max()  # energy everywhere: no exactly-zero plateaus, no ties
             e = e * np.exp(s["sigma"] * rs.standard_normal((nf, nd)))
         elif kind == "plateau":
             L = s["levels"]
